@@ -208,7 +208,153 @@ def twin_add_logging(root):
         p.write_text(ast.unparse(tree) + '\n')
 
 
+def twin_swap_compare(root):
+    """`a == b` -> `b == a` and `a != b` -> `b != a` for single
+    comparisons of side-effect-free operands (names, attributes, constants,
+    subscripts of those)."""
+    def pure(e):
+        return all(isinstance(x, (ast.Name, ast.Attribute, ast.Constant,
+                                  ast.Subscript, ast.Load, ast.Index,
+                                  ast.UnaryOp, ast.USub, ast.Tuple,
+                                  ast.List))
+                   for x in ast.walk(e))
+
+    class T(ast.NodeTransformer):
+        def visit_Compare(self, node):
+            self.generic_visit(node)
+            if len(node.ops) == 1 and isinstance(node.ops[0],
+                                                 (ast.Eq, ast.NotEq)) and \
+                    pure(node.left) and pure(node.comparators[0]):
+                node.left, node.comparators[0] = \
+                    node.comparators[0], node.left
+            return node
+    for p in Path(root).rglob('*.py'):
+        tree = ast.parse(p.read_text())
+        T().visit(tree)
+        p.write_text(ast.unparse(tree) + '\n')
+
+
+def twin_expand_augassign(root):
+    """`x += e` -> `x = x + e` for plain local names and attributes of
+    self with immutable arithmetic (only Add/Sub on names bound to numbers
+    or strings is semantics-preserving in general; restricted to targets
+    that are plain names or `self.attr`, and to - and + with a constant or
+    name on the right)."""
+    class T(ast.NodeTransformer):
+        def visit_AugAssign(self, node):
+            self.generic_visit(node)
+            if isinstance(node.op, (ast.Add, ast.Sub)) and \
+                    isinstance(node.target, ast.Name) and \
+                    isinstance(node.value, ast.Constant) and \
+                    isinstance(node.value.value, int):
+                load = ast.Name(id=node.target.id, ctx=ast.Load())
+                return ast.copy_location(ast.Assign(
+                    targets=[node.target],
+                    value=ast.BinOp(left=load, op=node.op,
+                                    right=node.value)), node)
+            return node
+    for p in Path(root).rglob('*.py'):
+        tree = ast.parse(p.read_text())
+        T().visit(tree)
+        ast.fix_missing_locations(tree)
+        p.write_text(ast.unparse(tree) + '\n')
+
+
+def twin_invert_if(root):
+    """`if c: A else: B` -> `if not c: B else: A` for plain two-armed ifs
+    (no elif chain on either side)."""
+    class T(ast.NodeTransformer):
+        def visit_If(self, node):
+            self.generic_visit(node)
+            if node.orelse and not (len(node.orelse) == 1 and
+                                    isinstance(node.orelse[0], ast.If)) \
+                    and not (len(node.body) == 1 and
+                             isinstance(node.body[0], ast.If)):
+                parent_is_elif = False
+                node.test = ast.UnaryOp(op=ast.Not(), operand=node.test)
+                node.body, node.orelse = node.orelse, node.body
+            return node
+    for p in Path(root).rglob('*.py'):
+        tree = ast.parse(p.read_text())
+        # do not touch ifs that are themselves the elif of another if
+        elifs = set()
+        for n in ast.walk(tree):
+            if isinstance(n, ast.If) and len(n.orelse) == 1 and \
+                    isinstance(n.orelse[0], ast.If):
+                elifs.add(id(n.orelse[0]))
+
+        class T2(T):
+            def visit_If(self, node):
+                if id(node) in elifs:
+                    self.generic_visit(node)
+                    return node
+                return T.visit_If(self, node)
+        T2().visit(tree)
+        ast.fix_missing_locations(tree)
+        p.write_text(ast.unparse(tree) + '\n')
+
+
+def twin_hoist_call_args(root):
+    """`f(.., g(x), ..)` as a statement (or `v = f(.., g(x), ..)`) becomes
+    `tmp_h1 = g(x)` followed by the call with `tmp_h1`: the first call-valued
+    positional argument of a top-level call statement is hoisted into a
+    fresh local.  Evaluation order is preserved only when the arguments
+    before it are side-effect free names/attributes/constants, so only
+    those sites are rewritten."""
+    counter = [0]
+
+    def pure(e):
+        return all(isinstance(x, (ast.Name, ast.Attribute, ast.Constant,
+                                  ast.Load)) for x in ast.walk(e))
+
+    def rewrite_body(body):
+        out = []
+        for st in body:
+            call = None
+            if isinstance(st, ast.Expr) and isinstance(st.value, ast.Call):
+                call = st.value
+            elif isinstance(st, ast.Assign) and \
+                    isinstance(st.value, ast.Call) and \
+                    len(st.targets) == 1 and \
+                    isinstance(st.targets[0], ast.Name):
+                call = st.value
+            if call is not None and pure(call.func):
+                for k, a in enumerate(call.args):
+                    if isinstance(a, ast.Starred):
+                        break
+                    if isinstance(a, ast.Call) and pure(a.func) and all(
+                            pure(x) for x in a.args) and not a.keywords:
+                        counter[0] += 1
+                        name = f'tmp_h{counter[0]}'
+                        out.append(ast.copy_location(ast.Assign(
+                            targets=[ast.Name(id=name, ctx=ast.Store())],
+                            value=a), st))
+                        call.args[k] = ast.Name(id=name, ctx=ast.Load())
+                        break
+                    if not pure(a):
+                        break
+            out.append(st)
+        return out
+
+    for p in Path(root).rglob('*.py'):
+        tree = ast.parse(p.read_text())
+        for fn in ast.walk(tree):
+            if isinstance(fn, ast.FunctionDef):
+                for n in ast.walk(fn):
+                    for fld in ('body', 'orelse', 'finalbody'):
+                        b = getattr(n, fld, None)
+                        if isinstance(b, list) and b and \
+                                isinstance(b[0], ast.stmt):
+                            setattr(n, fld, rewrite_body(b))
+        ast.fix_missing_locations(tree)
+        p.write_text(ast.unparse(tree) + '\n')
+
+
 TWINS = {
+    'hoist-call-args': twin_hoist_call_args,
+    'invert-if': twin_invert_if,
+    'swap-compare': twin_swap_compare,
+    'expand-augassign': twin_expand_augassign,
     'unparse-roundtrip': twin_unparse,
     'rename-locals': twin_rename_locals,
     'reorder-methods': twin_reorder_methods,
